@@ -21,7 +21,7 @@ VARIABLES now, lo, hi, charged, admitted, fwlast, inflight, deadline, cqlast,
 TxIds == {TraceLog[i].id : i \in {j \in 2..TraceLen : TraceLog[j].ev = "tx"}}
 
 G == INSTANCE GatewayP WITH TxIds <- TxIds, Cfg <- C0.cfg, QIds <- DOMAIN C0.QKind, QKind <- C0.QKind, QMax <- C0.QMax, QW <- C0.QW,
-                            LimQ <- C0.LimQ, GenStatus <- C0.GenStatus
+                            LimQ <- C0.LimQ, GenStatus <- C0.GenStatus, SetH <- C0.SetH
 
 gvars == <<now, lo, hi, charged, admitted, fwlast, inflight, deadline, cqlast, l, cur, pos, seen>>
 qstate == <<lo, hi, charged, admitted, fwlast, inflight, deadline, cqlast>>
@@ -90,6 +90,10 @@ ReqJudgement(e) ==
     ELSE IF e.outcome = "ok" /\ \E q \in DOMAIN C0.QKind : G!QuotaV(q, x) = "yes" /\ q \notin sysran
          THEN "quota-system-flow-did-not-run"
     ELSE IF e.outcome = "ok" /\ e.status # G!ExpectedStatus(e.seq) THEN "answer-is-not-the-first-early-response"
+    ELSE IF e.outcome = "ok" /\ e.acts # G!FlatActs(e.seq) THEN "recorded-actions-are-not-those-of-the-processor-executions"
+    ELSE IF e.outcome = "ok" /\ \E i \in 1..Len(e.seq) : ~G!ProcActsOK(e, i) THEN "processor-handed-back-an-action-its-configuration-does-not-explain"
+    ELSE IF e.outcome = "ok" /\ ~G!A!ReqOK(e.acts, e.out) THEN "answer-is-not-the-combination-of-the-actions(C07)"
+    ELSE IF e.outcome = "ok" /\ ~G!ReqAnswerOK(e) THEN "answer-does-not-carry-what-the-executed-processors-are-configured-to-do"
     ELSE "ok"
 
 \* the line of a request transaction is consumed when its last step is taken (TFinish): the high-water mark of l then always
@@ -148,6 +152,10 @@ ResJudgement(e) ==
          THEN "flow-did-not-run-although-its-filter-matches"
     ELSE IF \E f \in ran : WellFormed(C0.cfg, f) /\ UserVerdict(C0.cfg, f, "res", SelectSeq(e.seq, LAMBDA y : y.sid = "" /\ y.flow = f), e.outcome) # "ok"
          THEN "response-walk-does-not-follow-the-graph"
+    ELSE IF e.outcome = "ok" /\ e.acts # G!FlatActs(e.seq) THEN "recorded-actions-are-not-those-of-the-processor-executions"
+    ELSE IF e.outcome = "ok" /\ \E i \in 1..Len(e.seq) : ~G!ProcActsOK(e, i) THEN "processor-handed-back-an-action-its-configuration-does-not-explain"
+    ELSE IF e.outcome = "ok" /\ ~G!A!RespOK(e.acts, e.out) THEN "answer-is-not-the-combination-of-the-actions(C07)"
+    ELSE IF e.outcome = "ok" /\ ~G!ResAnswerOK(e) THEN "answer-does-not-carry-what-the-executed-processors-are-configured-to-do"
     ELSE "ok"
 
 TRes ==
